@@ -40,7 +40,10 @@ VecCase(v) == v # <<0,0,0>> /\ Do([k |-> "vector", v |-> v], [dir |-> v, n2 |-> 
 TwistCase(s) ==
   LET v == << s[1], s[2], s[3] >>  w == << s[4], s[5], s[6] >> IN
   /\ (v # <<0,0,0>> \/ w # <<0,0,0>>)
-  /\ Do([k |-> "twist", s |-> s], [by |-> IF w # <<0,0,0>> THEN "w" ELSE "v", n2 |-> IF w # <<0,0,0>> THEN Dot(w, w) ELSE Dot(v, v)])
+  \* tot2: squared Euclidean norm of the whole 6-vector - NOT the norm a unit twist is normalised by; the harness
+  \* also presents the twist scaled so that THIS norm is 1 (and so that the proper norm is 1: already a unit twist)
+  /\ Do([k |-> "twist", s |-> s], [by |-> IF w # <<0,0,0>> THEN "w" ELSE "v", n2 |-> IF w # <<0,0,0>> THEN Dot(w, w) ELSE Dot(v, v),
+                                   tot2 |-> Dot(v, v) + Dot(w, w)])
 
 \* wrap(a - b) in quarter turns: the representative in -2..2 ; at the ends both -2 and 2 are admissible
 Wrap4(x) == LET r == ((x + 2) % 4) - 2 IN r        \* in -2..1
